@@ -215,7 +215,7 @@ def judge_fill(res, edges, bins0, n_out0, events, via="structure"):
     try:
         e = _cp(edges)
         b = _cp(bins0)
-        if via == "structure":
+        if via in ("structure", "structure-buffer"):
             el = None
             h = histogram(e, b) if b is not None else histogram(e)
             h.n_out_of_range = n_out0
@@ -228,6 +228,7 @@ def judge_fill(res, edges, bins0, n_out0, events, via="structure"):
         res.violation(case(), "construction raised " + type(ex).__name__, "a histogram",
                       {"law": "fill", "via": via, "what": "construction:" + type(ex).__name__})
         return False
+    buf = []
     for step, (coord, w) in enumerate(events):
         before = _others(h)
         idx, inside = model.fill(coord, w)
@@ -235,6 +236,10 @@ def judge_fill(res, edges, bins0, n_out0, events, via="structure"):
         try:
             if via == "structure":
                 h.fill(_cp(coord), w)
+            elif via == "structure-buffer":
+                # the caller keeps ONE list for its coordinates and overwrites it for every point
+                buf[:] = list(coord)
+                h.fill(buf, w)
             elif via == "element":
                 el.fill(_cp(coord))
             else:
@@ -375,6 +380,10 @@ def run_seq(res, tier, p):
                 res.case(nontrivial=landed and ncells >= 2)
                 res.count("fill_sequences")
                 last = seq
+                if length >= 2 and isinstance(first[0], (list, tuple)):
+                    landed = judge_fill(res, edges, None, 0, seq, via="structure-buffer")
+                    res.case(nontrivial=landed and ncells >= 2)
+                    res.count("fill_sequences_from_one_coordinate_buffer")
     # the element: sequences of values (weight 1), alternating bare data / (data, context) driver
     for i, first in enumerate(coords):
         if i % p["of"] != p["part"]:
@@ -427,7 +436,7 @@ def replay(case):
     return result_violations(res)
 
 
-LEVEL_TEXT = ("bounded exhaustive exploration: every strictly increasing sub-sequence of 13 adversarial "
+LEVEL_TEXT = ("bounded exhaustive exploration: every strictly increasing sub-sequence of 14 adversarial "
               "edge pools (uniform, highly non-uniform, float noise, adjacent floats, 1e-300..1e300, "
               "negative, integers beyond 2**53; up to 12 edges) is executed on the real "
               "get_bin_on_value_1d / histogram.fill / Histogram.fill for every coordinate of the pool "
